@@ -344,6 +344,8 @@ impl Coe {
         }
         assert(request.sdo_header.size as int == 4 - n);
     }
+@before "return Err(Error::Internal);"
+    proof { assert(value.packed().len() > 4); }     // refused ONLY for values that do not fit an expedited download
 @*/
 
 /*@fn file=src/mailbox/coe/mod.rs impl="impl<'maindevice, S> Coe<'maindevice, S>" name=sdo_read subst="&self=>&mut self@@self.subdevice.mailbox_counter()=>self.mailbox_counter()@@impl Into<SubIndex>=>SubIndex@@let sub_index = sub_index.into();=>" props=C15,C16 attr="#[verifier::loop_isolation(false)] #[verifier::allow_complex_invariants]"
@@ -427,6 +429,8 @@ impl Coe {
     decreases buf@.len() - total_len
 @closure 0 "|_e: WireError| -> (cr: Error)"
     ensures cr == Error::Pdu(PduError::Decode)
+@before "return Err(Error::Mailbox(MailboxError::SdoResponseInvalid"
+    proof { assert(chunk_len == 0 && !headers.sdo_header.is_last_segment); }   // refused ONLY for a data-less segment that is not the last
 @*/
 
 // the array helpers: the implicit `.into()` of the sub-index argument (first statement of sdo_write / sdo_read, removed there by
@@ -458,6 +462,8 @@ impl Coe {
     decreases len as int + 1 - __it0.next
 @closure 0 "|_e: T| -> (cr: Error)"
     ensures cr == Error::Internal
+@before "return Err(Error::Capacity(Item::SdoSubIndex));"
+    proof { assert(len as int > MAX_ENTRIES); }    // refused ONLY when the object has more entries than the destination holds
 @*/
 }
 
